@@ -231,6 +231,7 @@ func (n *Node) Close() {
 		return
 	}
 	n.closed = true
+	n.deactivateEvents()
 	func() {
 		defer func() { _ = recover() }()
 		n.Store.Close()
